@@ -23,14 +23,19 @@ func dumpAll(a Arguments, depth int) reflect.Value {
 	dumpScopeVars(&b, a.runtime.scope, 0)
 	dumpScopeVarsToDepth(&b, a.runtime.parent, depth)
 
-	vars = a.runtime.set.globals
-	for i, name := range vars.SortedKeys() {
-		if i == 0 {
-			fmt.Fprintln(&b, "Globals:")
+	func() {
+		// AddGlobal may be writing to the globals of the set while this execution reads them
+		a.runtime.set.gmx.RLock()
+		defer a.runtime.set.gmx.RUnlock()
+		vars = a.runtime.set.globals
+		for i, name := range vars.SortedKeys() {
+			if i == 0 {
+				fmt.Fprintln(&b, "Globals:")
+			}
+			val := vars[name]
+			fmt.Fprintf(&b, "\t%s:=%#v // %s\n", name, val, val.Type())
 		}
-		val := vars[name]
-		fmt.Fprintf(&b, "\t%s:=%#v // %s\n", name, val, val.Type())
-	}
+	}()
 
 	blockKeys := a.runtime.scope.sortedBlocks()
 	fmt.Fprintln(&b, "Blocks:")
